@@ -353,3 +353,136 @@ func runC03Foreign(c *mc.Ctx) {
 		c03ForeignSweep(c, "bech32", "bc", "1", full[3:], ref.Bech32Charset, 6)
 	}
 }
+
+// Inputs that contain the algorithm's own constants.  A remainder routine can only be compared with
+// the specification on the inputs one feeds it; besides the unit vectors and the structured base
+// strings, the five generator constants of each code are spelled out as windows of symbols (most and
+// least significant symbol first) at every alignment of strings of every standard length, over a
+// zero background and over the base string, and the hooked routine must equal the specification's
+// shift register there.  (Without the hook the family is skipped: the decoder alone does not reveal
+// the remainder of an invalid string.)
+func runC03Constants(c *mc.Ctx) {
+	if hookCashPolyMod == nil && hookBechPolymod == nil {
+		c.Note("constant_windows", "skipped: no remainder hook in this build")
+		return
+	}
+	type job struct {
+		codec, prefix string
+		L, width      int
+		consts        []uint64
+	}
+	var jobs []job
+	if hookCashPolyMod != nil {
+		for _, L := range cashLens {
+			jobs = append(jobs, job{"cashaddr", "bitcoincash", L, 8, []uint64{0x98f2bc8e61, 0x79b76d99e2, 0xf33e5fb3c4, 0xae2eabe2a8, 0x1e4f43e470, 0x07ffffffff}})
+		}
+	}
+	if hookBechPolymod != nil {
+		for _, L := range []int{14, 39, 59, 88} {
+			jobs = append(jobs, job{"bech32", "a", L, 6, []uint64{0x3b6a57b2, 0x26508e6d, 0x1ea119fa, 0x3d4233dd, 0x2a1462b3, 0x1ffffff}})
+		}
+	}
+	var n atomic.Int64
+	for _, jb := range jobs {
+		jb := jb
+		var base []int
+		if jb.codec == "cashaddr" {
+			p := c03CashBase(jb.prefix, jb.L)
+			for i := 0; i < len(p); i++ {
+				base = append(base, strings.IndexByte(ref.CashCharset, p[i]))
+			}
+		} else {
+			p := c03BechBase(jb.prefix, jb.L)[len(jb.prefix)+1:]
+			for i := 0; i < len(p); i++ {
+				base = append(base, strings.IndexByte(ref.Bech32Charset, p[i]))
+			}
+		}
+		c.ParFor(int64(jb.L-jb.width+1), func(w *mc.W, t int64) {
+			for _, k := range jb.consts {
+				for order := 0; order < 2; order++ {
+					for bg := 0; bg < 2; bg++ {
+						seq := make([]int, jb.L)
+						if bg == 1 {
+							copy(seq, base)
+						}
+						for i := 0; i < jb.width; i++ {
+							sh := uint(5 * (jb.width - 1 - i))
+							if order == 1 {
+								sh = uint(5 * i)
+							}
+							seq[int(t)+i] = int(k >> sh & 31)
+						}
+						w.Eval()
+						w.State()
+						n.Add(1)
+						got := c03SeqSyn(jb.codec, jb.prefix, seq)
+						var want uint64
+						if jb.codec == "cashaddr" {
+							v := []int{}
+							for i := 0; i < len(jb.prefix); i++ {
+								v = append(v, int(jb.prefix[i]&0x1f))
+							}
+							want = cashPolyBytes(append(append(v, 0), seq...))
+						} else {
+							v := []int{}
+							for i := 0; i < len(jb.prefix); i++ {
+								v = append(v, int(jb.prefix[i]>>5))
+							}
+							v = append(v, 0)
+							for i := 0; i < len(jb.prefix); i++ {
+								v = append(v, int(jb.prefix[i]&31))
+							}
+							want = bechPolyInts(append(v, seq...))
+						}
+						if got != want {
+							sy := make([]byte, len(seq))
+							for i := range seq {
+								sy[i] = byte(seq[i])
+							}
+							c.Violate(jb.codec+"-remainder-differs-from-spec-on-a-constant-window", "window", map[string]any{"codec": jb.codec, "prefix": jb.prefix, "symbols_hex": mc.Hex(sy)},
+								fmt.Sprintf("symbols %x (the constant %#x at offset %d): routine gives %#x, the specification %#x", sy, k, t, got, want))
+							return
+						}
+					}
+				}
+			}
+		})
+	}
+	c.Space("remainder routine vs specification on strings containing the generator constants as symbol windows (every alignment, two symbol orders, two backgrounds)", n.Load())
+}
+
+type c03Window struct {
+	Codec   string `json:"codec"`
+	Prefix  string `json:"prefix"`
+	Symbols string `json:"symbols_hex"`
+}
+
+// c03EvalWindow (replay): the hooked remainder routine against the specification on one symbol string.
+func c03EvalWindow(w *mc.W, cas c03Window) {
+	w.Eval()
+	var seq []int
+	for _, b := range mc.UnHex(cas.Symbols) {
+		seq = append(seq, int(b))
+	}
+	got := c03SeqSyn(cas.Codec, cas.Prefix, seq)
+	var v []int
+	var want uint64
+	if cas.Codec == "cashaddr" {
+		for i := 0; i < len(cas.Prefix); i++ {
+			v = append(v, int(cas.Prefix[i]&0x1f))
+		}
+		want = cashPolyBytes(append(append(v, 0), seq...))
+	} else {
+		for i := 0; i < len(cas.Prefix); i++ {
+			v = append(v, int(cas.Prefix[i]>>5))
+		}
+		v = append(v, 0)
+		for i := 0; i < len(cas.Prefix); i++ {
+			v = append(v, int(cas.Prefix[i]&31))
+		}
+		want = bechPolyInts(append(v, seq...))
+	}
+	if got != want {
+		w.Ctx().Violate(cas.Codec+"-remainder-differs-from-spec-on-a-constant-window", "window", cas, fmt.Sprintf("routine %#x, specification %#x", got, want))
+	}
+}
